@@ -444,7 +444,10 @@ func (i IntersectsPoint) ToProto() (*pb.QueryProto, error) {
 }
 
 func (i IntersectsPoint) Equal(other Query) bool {
-	if ii, ok := other.(*IntersectsPoint); ok {
+	switch ii := other.(type) {
+	case IntersectsPoint:
+		return i.Point == ii.Point
+	case *IntersectsPoint:
 		return i.Point == ii.Point
 	}
 	return false
@@ -532,7 +535,10 @@ func (i IntersectsPolyline) ToProto() (*pb.QueryProto, error) {
 }
 
 func (i IntersectsPolyline) Equal(other Query) bool {
-	if ii, ok := other.(*IntersectsPolyline); ok {
+	switch ii := other.(type) {
+	case IntersectsPolyline:
+		return geometry.PolylineEqual(i.Polyline, ii.Polyline)
+	case *IntersectsPolyline:
 		return geometry.PolylineEqual(i.Polyline, ii.Polyline)
 	}
 	return false
@@ -637,7 +643,10 @@ func (i IntersectsMultiPolygon) ToProto() (*pb.QueryProto, error) {
 }
 
 func (i IntersectsMultiPolygon) Equal(other Query) bool {
-	if ii, ok := other.(*IntersectsMultiPolygon); ok {
+	switch ii := other.(type) {
+	case IntersectsMultiPolygon:
+		return geometry.MultiPolygonEqual(i.MultiPolygon, ii.MultiPolygon)
+	case *IntersectsMultiPolygon:
 		return geometry.MultiPolygonEqual(i.MultiPolygon, ii.MultiPolygon)
 	}
 	return false
